@@ -85,6 +85,20 @@ def pattern_method(prog, rep, qname, raw_attrs, rule="PAT", allow_result_arith=T
                 "arithmetic on raw weights reaches a decision: " + "; ".join(v["sinks"][:3]), detail=v["sinks"])
 
 
+def inline_helpers(prog, module, keep=(), also=()):
+    """SYM inlining policy: private helpers of `module` (leading underscore) and the functions named in `also` are
+    expanded at their call sites, so that extracting a helper does not hide what a function computes"""
+    keep, also = set(keep), set(also)
+
+    def pol(g):
+        if g.qname in keep:
+            return False
+        if g.qname in also:
+            return True
+        return g.module.name == module and g.name.startswith("_") and not g.name.startswith("__")
+    return pol
+
+
 # ----------------------------------------------------------------------------- SYM helpers
 def sym_function(prog, qname, inline=None, args=None):
     f = need(prog, qname)
